@@ -224,8 +224,11 @@ def build(case):
     for i, v in enumerate(case['option']): d.parameter['option'][i] = v
     objs = {}
     for spec in case['gens']:
-        g = mk_gen(T, spec)
-        b.genid[id(g)] = spec[0]; b.keep.append(g); objs[spec[0]] = g
+        if spec[0] in objs:
+            g = objs[spec[0]]                     # the same object listed once more
+        else:
+            g = mk_gen(T, spec)
+            b.genid[id(g)] = spec[0]; b.keep.append(g); objs[spec[0]] = g
         d.add_generator(g)
     for spec in case.get('free_gens', []):        # generator objects referenced by lists but not in the model
         g = mk_gen(T, spec)
@@ -472,6 +475,8 @@ def rand_model(rng, flavour, wf=True):
         else:
             typ = rng.choice(T2_TYPES) if r < 0.85 else rng.choice(CONVERTIBLE + AUT_ONLY + ODD_TYPES)
         gens.append((k + 1, rng.choice(pool_blocks), rng.choice(GEN_NAMES), typ, 10 + k))
+    if gens and rng.random() < 0.12:
+        gens.insert(rng.randint(0, len(gens)), rng.choice(gens))      # one object listed twice
     case['gens'] = gens
     case['free_gens'] = [(900, rng.choice(pool_blocks), 'fre 1', rng.choice(T2_TYPES + AUT_ONLY), 5)] if rng.random() < 0.1 else []
     allg = gens + case['free_gens']
@@ -1207,6 +1212,7 @@ THEOREMS = ['Props.C20.' + t for t in [
     'eos_detected_from_simulator',
     'add_generator_spec', 'delete_generator_spec', 'insert_delete_section_spec',
     'section_ops_keep_order', 'converted_sections_ordered',
+    'distinct_objects_same_obj', 'lookup_last_one_wins',
 ]] + [
     # obligations on the generated tables (decide over the whole table, re-elaborated against /repo's current tables)
     'Proofs.Convert.convert_targets_tough2',
@@ -1232,7 +1238,7 @@ LEVEL_NOTE = ('Trusted: Lean kernel (+propext, Classical.choice, Quot.sound); th
 TECHNIQUE = ('Lean 4 proofs over an executable model of the conversion / export control flow + generated tables re-checked by `decide` '
              '+ differential correspondence with the real t2data object + direct property oracle incl. real file round trip')
 ASSUMPTIONS = [
-    'ASCII names; generator objects are distinct (no object listed twice in generatorlist)',
+    'ASCII names',
     'file round trip (write()+read()) is evaluated by the oracle on the real code, the byte level belongs to C01; names are stable under fix/unfix_blockname',
     'floats: porosity / conductivity on the grid k/16, m/4 so that c*(1-phi) is exact in double and in Q',
     'Waiwera: only the EOS name, the rock cell lists, the boundary block set and the (name, cell) of each source are modelled; the numeric payload of a source, '
@@ -1463,8 +1469,8 @@ def _run(ctx, scale=1.0, model=True):
                     expect.append(('history_lines', items, case, None))
     res.hyp['sections.Nodup (to_tough2_no_autough2_sections, second part)'] = hyp_nodup
     res.hyp['sections in standard order (converted_sections_ordered)'] = hyp_ord
-    res.hyp['generator objects distinct (to_tough2_generators)'] = hyp_ids
-    res.hyp['lookup keys distinct, entries point to listed generators of that block and name (to_tough2_lookup, ..._consistent)'] = hyp_wf
+    res.hyp['generator objects all distinct (not needed by to_tough2_generators any more: the rest lists an object twice)'] = hyp_ids
+    res.hyp['every lookup entry points to a listed generator of that block and name (to_tough2_list_lookup_consistent)'] = hyp_wf
     res.hyp['history lists of the converted model hold only grid blocks / connections (to_tough2_history_roundtrip_partial)'] = hyp_rt
     res.hyp['history_generator empty (to_autough2_requests_kept_partial)'] = hyp_hg
     # Waiwera
